@@ -49,9 +49,17 @@ Definition res_eqb (a b : res (list Z)) : bool :=
   | _, _ => false
   end.
 
+(* the model ran out of fuel (a price->tick search longer than SEARCH_FUEL, PowApprox longer than
+   POW_FUEL): it cannot decide the case; such cases are skipped and counted (code 150), never
+   reported as a disagreement *)
+Definition undecided (c : amm_case) : bool :=
+  match snd (step (c_pre c) (c_op c)) with Err e => e =? E_FUEL | _ => false end.
 Definition corr (c : amm_case) : bool :=
   let '(s', r) := step (c_pre c) (c_op c) in
-  res_eqb r (c_res c) && amm_eqb s' (c_post c).
+  match r with
+  | Err e => if e =? E_FUEL then true else res_eqb r (c_res c) && amm_eqb s' (c_post c)
+  | _ => res_eqb r (c_res c) && amm_eqb s' (c_post c)
+  end.
 
 (* debug view of a mismatch *)
 Definition corr_debug (c : amm_case) :=
